@@ -34,6 +34,7 @@ INVS = ["TypeOK", "Solvable", "RatOK",
         "PiStationary", "FundamentalIsInverse", "AllPairsColumn", "AllPairsFirstStep"]
 ALL_MODES = ("committor", "mfpt_sinks", "mfpt_all")
 LAGS = ((1, 1), (5, 2))          # 5/2: a non-integer lag time, exact in binary
+SMALL_HEAP = ("-Xmx1200m",)        # the single-worker part jobs hold < 1e6 states; 16 of them run at once
 
 # parts: the chains of a scope are split over `parts` single-worker TLC processes (checking and
 # emitting in one pass); emit: how many of the parts also print their cases for replay
@@ -43,9 +44,9 @@ SCOPES = {
               dict(N=4, D=2, parts=10, emit=2)],
     "thorough": [# one multi-worker run, no emission; all-pairs mfpts (35 ms of rational arithmetic per chain)
                  # are left to the parts below for this scope
-                 # (58 M states for the whole scope: ~10 min on 16 idle cores; one quarter of the chains,
+                 # (58 M states for the whole scope: ~10 min on 16 idle cores; one half of the chains,
                  # rotating with VERIF_SEED, keeps the tier inside its budget)
-                 dict(N=4, D=3, parts=4, multi=1, workers=12, modes=("committor", "mfpt_sinks")),
+                 dict(N=4, D=3, parts=2, multi=1, workers=12, modes=("committor", "mfpt_sinks")),
                  dict(N=4, D=3, parts=64, emit=2, only_emit=True),  # 2/64 of those chains, all modes, replayed
                  dict(N=3, D=3, parts=1, emit=1, coverage=True),
                  dict(N=3, D=4, parts=2, emit=2),
@@ -229,7 +230,7 @@ def _jobs(ctx, d, rng):
             cfg = core.write_cfg(os.path.join(d, "mc%d.cfg" % si), invariants=INVS + ["EmitInv"],
                                  constants=dict(N=N, D=D, Part=0, Parts=1, Emit="TRUE", Chains="<- MCChains",
                                                 Lags="<- MCLags", Modes="<- MCModes"))
-            jobs.append(dict(module=mod, cfg=os.path.basename(cfg), cwd=d, workers=1, timeout=3600,
+            jobs.append(dict(module=mod, cfg=os.path.basename(cfg), cwd=d, workers=1, timeout=3600, java_opts=SMALL_HEAP,
                              label="sampled chains N=%d D=%d (%d), check+emit" % (N, D, len(chains))))
             meta.append(dict(sc=sc, emit=True))
             continue
@@ -249,7 +250,7 @@ def _jobs(ctx, d, rng):
             cfg = core.write_cfg(os.path.join(d, "mc%d_cov.cfg" % si), invariants=INVS,
                                  constants=dict(N=N, D=D, Part=ctx.seed % 16, Parts=16, Emit="FALSE",
                                                 Chains="<- MCChains", Lags="<- MCLags", Modes="<- MCModes"))
-            jobs.append(dict(module=mod, cfg=os.path.basename(cfg), cwd=d, workers=1, timeout=1500, coverage=True,
+            jobs.append(dict(module=mod, cfg=os.path.basename(cfg), cwd=d, workers=1, timeout=1500, coverage=True, java_opts=SMALL_HEAP,
                              label="N=%d D=%d 1/16 slice, action coverage" % (N, D)))
             meta.append(dict(sc=sc, emit=False, cov=True))
         emit_parts = {(first + k) % sc["parts"] for k in range(sc["emit"])}
@@ -262,7 +263,7 @@ def _jobs(ctx, d, rng):
                                  constants=dict(N=N, D=D, Part=p, Parts=sc["parts"],
                                                 Emit="TRUE" if emit else "FALSE", Chains="<- MCChains",
                                                 Lags="<- MCLags", Modes="<- MCModes"))
-            jobs.append(dict(module=mod, cfg=os.path.basename(cfg), cwd=d, workers=1, timeout=3600,
+            jobs.append(dict(module=mod, cfg=os.path.basename(cfg), cwd=d, workers=1, timeout=3600, java_opts=SMALL_HEAP,
                              label="exhaustive N=%d D=%d part %d/%d%s" % (N, D, p, sc["parts"],
                                                                          " +emit" if emit else "")))
             meta.append(dict(sc=sc, emit=emit))
